@@ -85,9 +85,7 @@ Proof. exact ordinal_last_word. Qed.
 Print Assumptions C15_ordinal_last_word.
 (* (6b) The loop of dirR (for _, trip := range cardinalTriples, three digits of the decimal text per round, the pop of
    the scale word of an all-zero group, the ordinal tables in the first round only) writes, for EVERY integer, the
-   text of the definition wherever english_ok holds: no group of three digits has a tens digit 2..9 with a units digit 0
-   (finding C15-english-empty-word), |z| < 10^66
-   (C15-english-beyond-vigintillion) and, for ordinals, the number is 0 or ends in 01..19 or in a digit that is not 0
+   text of the definition wherever english_ok holds: |z| < 10^66 (finding C15-english-beyond-vigintillion) and, for ordinals, the number is 0 or ends in 01..19 or in a digit that is not 0
    (C15-ordinal-of-round-number). By induction over the groups of three digits of the decimal text; the words of one
    round are compared with the definition for all 22 x 1000 (scale, group value) pairs by kernel computation — the
    domain of a group is finite. No bound on z. *)
@@ -96,9 +94,8 @@ Theorem C15_english_loop : forall ordinal z, english_ok ordinal (Z.abs_N z) = tr
 Proof. exact english_loop. Qed.
 Print Assumptions C15_english_loop.
 (* (6c) ... and EXACTLY there: for every integer outside english_ok the loop writes a text that is not the defined one
-   (a word the definition never writes — the empty word —, a cardinal where the ordinal is wanted, or a
-   text where the definition has none). So the clauses of english_ok are each necessary: they are the remaining known
-   findings about the English writer (the quantillion clause went with repo_fixes/C15-1), and there is no other. *)
+   (a cardinal where the ordinal is wanted, or a text where the definition has none). So the clauses of english_ok are each necessary: they are the remaining known
+   findings about the English writer (the quantillion and empty-word clauses went with repo_fixes/C15-1 and C15-2), and there is no other. *)
 Theorem C15_english_loop_exact : forall ordinal z,
   go_english src_tables ordinal (dec_text z) = std_english ordinal z <-> english_ok ordinal (Z.abs_N z) = true.
 Proof. exact english_loop_exact. Qed.
